@@ -20,9 +20,14 @@ LEVEL = "model_checking"
 PKG = "./commonspace/pubsub/"
 
 
+_CTX_MODULE = [None]
+
+
 def _broken(msg):
-    from vf import CheckBroken
-    return CheckBroken(msg)
+    # the exception class of the running orchestrator (lib/vf.py is executed as __main__ by bin/check)
+    import sys
+    mod = sys.modules.get(_CTX_MODULE[0] or "") or __import__("vf")
+    return mod.CheckBroken(msg)
 
 
 def _overlay():
@@ -33,12 +38,10 @@ def _overlay():
 
 def _inpkg(ctx, run, env=None, name=None, timeout=1500):
     rep = ctx.go_test(PKG, run=run, env=env, in_repo=True, overlay=_overlay(), tags=None, timeout=timeout, name=name or ("pubsub " + run))
-    known = {k["key"] for k in ctx.known_findings() if k.get("status") == "known"}
-    if rep.get("drift") and not [v for v in (rep.get("violations") or []) if v.get("key") not in known]:
-        # the engine and the specification disagree although no property predicate failed: the check cannot vouch
-        raise _broken("DRIFT in %s (%d): %s" % (run, rep["drift"], "; ".join(rep.get("drift_notes") or [])[:3000]))
-    for n in (rep.get("drift_notes") or [])[:3]:
-        ctx.notes.append("drift (next to a reported violation): " + n[:300])
+    # drift = the engine and the specification disagree although no property predicate failed there; whether the
+    # check can vouch is decided at the end over all jobs (_drift_verdict)
+    for n in (rep.get("drift_notes") or [])[:5]:
+        ctx.cov.setdefault("drift_notes", []).append("%s: %s" % (run, n[:400]))
     return rep
 
 
@@ -167,7 +170,30 @@ def _parallel(jobs, threads):
     return out
 
 
+def _drift_verdict(ctx):
+    """Drift next to a violation that is not a known finding: the violation is the verdict (exit 1). Drift alone, or next
+    to known findings only: the check cannot vouch for the tree (exit 2) - on a tree the check passes drift must be 0."""
+    if not ctx.cov.get("drift"):
+        return
+    known = {k["key"] for k in ctx.known_findings() if k.get("status") == "known"}
+    notes = ctx.cov.get("drift_notes") or []
+    if [v for v in ctx.violations if v["key"] not in known]:
+        for n in notes[:3]:
+            ctx.notes.append("drift (next to a reported violation): " + n[:300])
+        return
+    raise _broken("DRIFT (%d) without a failing property predicate: %s" % (ctx.cov["drift"], "; ".join(notes)[:3000]))
+
+
 def run(ctx):
+    _CTX_MODULE[0] = ctx.__class__.__module__
+    try:
+        _run(ctx)
+    finally:
+        pass
+    _drift_verdict(ctx)
+
+
+def _run(ctx):
     thorough = ctx.tier == "thorough"
     if ctx.replay:
         obj = json.load(open(ctx.replay)).get("replay") or {}
@@ -309,11 +335,8 @@ def _record_validate(ctx, selftest, recorded):
             line = int(m.group(1)) if m else -1
             lines = open(trace).read().splitlines()
             ctx.cov["drift"] += 1
-            known = {k["key"] for k in ctx.known_findings() if k.get("status") == "known"}
-            if not [v for v in (rep.get("violations") or []) if v.get("key") not in known]:
-                raise _broken("DRIFT: recorded %s-role run is not a behaviour of PubSub.tla at event %d (no property predicate failed): %s" % (
-                    what, line, lines[line - 1][:1500] if 0 < line <= len(lines) else "?"))
-            ctx.notes.append("recorded %s run left the spec at event %d (after a reported violation)" % (what, line))
+            ctx.cov.setdefault("drift_notes", []).append("recorded %s-role run is not a behaviour of PubSub.tla at event %d: %s" % (
+                what, line, lines[line - 1][:600] if 0 < line <= len(lines) else "?"))
 
     def selftest_job():
         # binding self-test: a corrupted recording must be rejected
